@@ -79,10 +79,11 @@ def model_check(ctx, prop, quick):
     module, cfg = mc_cfg(prop, 5, workers=2, ids=3, restart=restart, wait=wait)
     cov = run_mc(ctx, "cov", module, cfg, coverage=True, timeout=600)
     need = ACTIONS + (["Restart"] if restart else []) + (["DoWait"] if wait else [])
-    missing = tlc.uncovered_actions(cov, need)
+    missing = [a for a in need if cov.coverage.get(a, [0, 0])[1] == 0
+               and cov.coverage.get(a[2:] if a.startswith("Do") else a, [0, 0])[1] == 0]
     if missing:
         ctx.machinery("actions never taken in the bounded model: %s" % missing)
-    ctx.set_cover(action_coverage={a: cov.coverage.get(a) for a in need})
+    ctx.set_cover(action_coverage={a: v for a, v in cov.coverage.items() if v[1] > 0 and a != "DepthBound"})
     # deep random behaviours
     module, cfg = mc_cfg(prop, 40, restart=restart, wait=wait, symmetry=False, reconnect=True)
     sim = run_mc(ctx, "sim", module, cfg.replace("CONSTRAINT DepthBound\n", ""), simulate=(150 if quick else 4000),
@@ -95,12 +96,12 @@ def model_check(ctx, prop, quick):
     nonvac = {}
     expect = {
         "C16": [("OverwriteMailbox", 4, "Exclusive"), ("DropOnKill", 6, "Exclusive")],
-        "C17": [("DeliverDone", 5, "NeverFinished"), ("RequeueDone", 7, "NeverFinished")],
+        "C17": [("DeliverDone", 5, "NeverFinished"), ("RequeueDone", 7, "FinishedNotRequeued")],
         "C18": [("OverwriteMailbox", 4, "Exclusive")],
     }[prop]
     for sw, dep, viol in expect:
         module, cfg = mc_cfg(prop, dep, workers=2, ids=2, switches={sw: True}, restart=restart,
-                             invs=["Exclusive"], props=["NeverFinished"], tmos="{1}", prios="{0}")
+                             invs=["Exclusive"], props=["NeverFinished", "FinishedNotRequeued"], tmos="{1}", prios="{0}")
         r = run_mc(ctx, "nv_" + sw, module, cfg, timeout=900)
         nonvac[sw] = [r.kind, r.name]
         if r.name != viol:
